@@ -13,6 +13,7 @@
 //
 //	func main() { dvh.MaybeChild(); ... }                       // first statement of a driver
 //	p, err := dvh.Start(dvh.Opts{Dir: d})                       // new process on directory d (created if absent)
+//	p, err := dvh.Start(dvh.Opts{Dir: d, ReadOnly: true})        // a read-only server on d (Config.ReadOnly + server read-only flag)
 //	p, err := dvh.Start(dvh.Opts{Dir: d, Crash: "meta:7:after"}) // dies (exit 77) right after its 7th metadata Put/Delete
 //	                                                            // classes: meta | data; modes: before | after
 //	                                                            // class txn: the N-th read-write transaction of the underlying badger
@@ -115,6 +116,7 @@ func Main(args []string) {
 	verbose := fs.Bool("v", false, "keep DVID's log output on stderr")
 	mutStart := fs.Uint64("mutstart", 0, "datastore.Config.MutationStart")
 	instStart := fs.Uint64("inststart", 0, "datastore.Config.InstanceStart")
+	readOnly := fs.Bool("readonly", false, "start in read-only mode (datastore.Config.ReadOnly, server.SetReadOnly)")
 	fs.Parse(args)
 	if *dir == "" {
 		fmt.Fprintln(os.Stderr, "dvh: need -dir")
@@ -160,6 +162,9 @@ func Main(args []string) {
 	for _, t := range datastore.Compiled {
 		datatypes[t.GetTypeName()] = struct{}{}
 	}
+	if *readOnly {
+		server.SetReadOnly(true)
+	}
 	var initMetadata bool
 	var startErr error
 	func() {
@@ -174,7 +179,7 @@ func Main(args []string) {
 			startErr = fmt.Errorf("storage.Initialize: %v", err)
 			return
 		}
-		if err = datastore.Initialize(initMetadata, datastore.Config{MutationStart: *mutStart, InstanceStart: dvid.InstanceID(*instStart)}); err != nil {
+		if err = datastore.Initialize(initMetadata, datastore.Config{MutationStart: *mutStart, InstanceStart: dvid.InstanceID(*instStart), ReadOnly: *readOnly}); err != nil {
 			startErr = fmt.Errorf("datastore.Initialize: %v", err)
 		}
 	}()
